@@ -196,3 +196,7 @@ def evaluate(cfg):
             axes += [2 * k, 2 * k + 1]
         o.cmp("ERI orientation %s" % (p,), blk.transpose(axes), base, 2e-6, sc, key="eri-orientation", floor=1e-250)
     return o
+
+
+def cost(cfg):
+    return {"perm5": 100, "perm": 10 * cfg.get("n", 0) ** 2}.get(cfg["kind"], 1)
